@@ -360,6 +360,24 @@ def op_file(text: str):
     return "FILE " + P.esc(text), guarded(run), info
 
 
+def op_filepath(name: str, text: str):
+    """graph_from_file on a file called `name` (its suffix decides whether it is opened at all)"""
+    global _FILE_DIR
+    import os
+    from pathlib import Path
+    if _FILE_DIR is None:
+        import atexit, shutil, tempfile
+        _FILE_DIR = tempfile.mkdtemp(prefix="tucan_verif_files_")
+        atexit.register(shutil.rmtree, _FILE_DIR, True)
+
+    def run():
+        fp = os.path.join(_FILE_DIR, name)
+        with open(fp, "wb") as fh:
+            fh.write(text.encode("utf-8"))
+        return P.show_graph(MR.graph_from_file(fp))
+    return "FILEPATH " + P.esc(Path(name).suffix) + " " + P.esc(text), guarded(run)
+
+
 def op_splice(lines: list[str]):
     return " ".join(["SPLICE"] + P.enc_str_list(lines)), guarded(
         lambda: P.show_str_list(V3._concat_lines_with_dash(list(lines))))
